@@ -18,7 +18,7 @@
 (* back can be acquired by a later Start while another goroutine still     *)
 (* holds a reference to it.                                                *)
 (*                                                                         *)
-(* The model describes the code with the D5 repair (a transaction found    *)
+(* The model describes the code with the D5, D8 and D9 repairs; D5: (a transaction found    *)
 (* while the client is closed is completed, never retransmitted).          *)
 (***************************************************************************)
 EXTENDS Integers, Sequences, FiniteSets, TLC
@@ -48,6 +48,8 @@ CONSTANTS Starts,        \* start instances (one caller process each)
           AllowIndicate, \* a caller may be Client.Indicate (Start without a handler): one write, no transaction
           WObjs,         \* pooled callbackWaitHandler objects of Client.Do (identity matters: the pool is global)
           PoolOnError,   \* TRUE = the code before the D8 repair: Do puts its wait handler back even when Start failed
+          DupMode,       \* TRUE = caller DupStart uses the transaction id of another caller (IdOf maps both to one id):
+          DupStart,      \*   it is an indication, or a Start/Do that finds the id registered and is refused at once
           None
 
 RD == "RD"
@@ -133,7 +135,7 @@ LogWrite(id, attempt, reg, prev, r, ok) ==
 \* S0: checkInit + closed read under RLock, up to the clock.Now gate
 StartBegin(s) ==
   /\ pc[s] = "idle"
-  /\ \E kind \in Kinds : \E x \in (IF kind = "do" THEN FreeW ELSE {None}) :
+  /\ \E kind \in (IF DupMode /\ s = DupStart THEN {"ind"} ELSE Kinds) : \E x \in (IF kind = "do" THEN FreeW ELSE {None}) :
        LET q == IF kind = "do" THEN AcquireW(x, s) ELSE wp IN     \* Do: pool.Get, setCallback, then Start
        IF closed
        THEN /\ Goto(s, "done") /\ ret' = [ret EXCEPT ![s] = "err"] /\ UNCHANGED loc /\ wp' = ReleaseOnErr(q, x)
@@ -141,6 +143,17 @@ StartBegin(s) ==
             /\ Goto(s, IF kind = "ind" THEN "I_write" ELSE "S_now")
             /\ SetLoc(s, [NoLoc EXCEPT !.id = IdOf[s], !.s = s, !.w = x]) /\ UNCHANGED ret /\ wp' = q
   /\ UNCHANGED << closed, closeChan, connCloses, ct, at, aclosed, alock, obj, clock, idleLeft, rto, rtoBudget, inbox, fails, resps, junk,
+                  wsucc, wlog, hcalls, hlast, fbcalls, ended >>
+
+\* A Start or Do whose transaction id is registered already (the other caller's transaction is in flight) returns
+\* ErrTransactionExists and leaves everything as it was.  One action: the duplicate call runs from its first gate to
+\* its return while nobody else moves (the general interleaving of two live transactions with one id is outside the
+\* modelled scope; this is the case a caller can produce by mistake at any time).
+DupRefused(s) ==
+  /\ DupMode /\ s = DupStart /\ pc[s] = "idle"
+  /\ ~closed /\ ct[IdOf[s]] # None
+  /\ Goto(s, "done") /\ ret' = [ret EXCEPT ![s] = "err"]
+  /\ UNCHANGED << wp, closed, closeChan, connCloses, ct, at, aclosed, alock, obj, clock, idleLeft, rto, rtoBudget, loc, inbox, fails, resps, junk,
                   wsucc, wlog, hcalls, hlast, fbcalls, ended >>
 
 \* S1: clock read, acquire a pooled object (any free one), snapshot (RTO included) -> c.start gate
@@ -170,10 +183,12 @@ StartAgent(s) ==
   /\ pc[s] = "S_agentStart" /\ alock = None
   /\ LET id == IdOf[s] IN
      IF aclosed \/ at[id] # None
-     THEN /\ Goto(s, "done") /\ ret' = [ret EXCEPT ![s] = "err"] /\ UNCHANGED at /\ wp' = ReleaseOnErr(wp, loc[s].w)
+     THEN \* the agent refuses: the client-table entry made a moment ago is taken out again (D9 repair)
+          /\ Goto(s, "done") /\ ret' = [ret EXCEPT ![s] = "err"] /\ UNCHANGED at /\ wp' = ReleaseOnErr(wp, loc[s].w)
+          /\ ct' = [ct EXCEPT ![id] = None]
      ELSE /\ at' = [at EXCEPT ![id] = Deadline(loc[s].now, 0, obj[loc[s].o].rto)]
-          /\ Goto(s, "S_write") /\ UNCHANGED << ret, wp >>
-  /\ UNCHANGED << closed, closeChan, connCloses, ct, aclosed, alock, obj, clock, idleLeft, rto, rtoBudget, loc, inbox, fails, resps, junk,
+          /\ Goto(s, "S_write") /\ UNCHANGED << ret, wp, ct >>
+  /\ UNCHANGED << closed, closeChan, connCloses, aclosed, alock, obj, clock, idleLeft, rto, rtoBudget, loc, inbox, fails, resps, junk,
                   wsucc, wlog, hcalls, hlast, fbcalls, ended >>
 
 \* S3: the first transmission; on failure the client-table entry is deleted -> agent.Stop gate
@@ -501,7 +516,7 @@ CbStep(p) == CbLookup(p) \/ UserHandler(p) \/ Fallback(p) \/ RetxNow(p) \/ RetxR
              \/ RetxStop(p) \/ CbExit(p)
 
 Next ==
-  \/ \E s \in Starts : StartBegin(s) \/ StartNow(s) \/ StartRegister(s) \/ StartAgent(s) \/ StartWrite(s) \/ StartStop(s) \/ StartStopRet(s) \/ DoReturn(s) \/ IndicateWrite(s)
+  \/ \E s \in Starts : StartBegin(s) \/ StartNow(s) \/ StartRegister(s) \/ StartAgent(s) \/ StartWrite(s) \/ StartStop(s) \/ StartStopRet(s) \/ DoReturn(s) \/ IndicateWrite(s) \/ DupRefused(s)
   \/ \E p \in Procs : CbStep(p)
   \/ ReaderRead \/ ReaderProcess \/ CollectorRun \/ CollectorIdleRun
   \/ CloseBegin \/ CloseCollector \/ CloseAgent \/ CloseConnAndChan \/ CloseWait
